@@ -48,10 +48,116 @@ def table(base):
 INT_KERNELS = ('axpy', 'scal')
 
 
+def sp_kernel(kind):
+    """sp_gemv[id](trans, m, n, alpha, A->obj, oA, x, ix, beta, y, iy) and
+    sp_symv[id](uplo, n, alpha, A->obj, oA, x, ix, beta, y, iy): the call is
+    checked against the kernels' contract (contracts/c/sparse_spec.py): its
+    memory-safety preconditions become obligations of the caller, the vector
+    arguments get the kernels' footprints, and the pointers passed must be
+    the buffers of x and y at offsetx / offsety"""
+    from engine.cvc.exec import cdiv, Oblig
+
+    def h(ex, st, n, args):
+        if st.pure:
+            raise Impure()
+        vals = [ex.ev(a, st) for a in args[1:]]
+        if kind == 'gemv':
+            fl, m, nn, alpha, A, oA, x, ix, beta, y, iy = vals
+            m, nn = toint(m).t, toint(nn).t
+        else:
+            fl, nn, alpha, A, oA, x, ix, beta, y, iy = vals
+            nn = toint(nn).t
+            m = nn
+        oA, ix, iy = toint(oA).t, toint(ix).t, toint(iy).t
+        if not isinstance(A, PtrV) or A.obj is None or not isinstance(
+                x, PtrV) or not isinstance(y, PtrV):
+            raise Unsupported('sp_%s arguments' % kind)
+        o = A.obj
+        nr, nc = o.sp_nrows, o.sp_ncols
+        ex.trusted.add('sp_%s: contract of the sparse kernel (contracts/c/'
+                       'sparse_spec.py, discharged on sparse.c under C16)' %
+                       kind)
+        for text, g in (('m >= 0', m >= 0), ('n >= 0', nn >= 0),
+                        ('offsetA >= 0', oA >= 0), ('incx != 0', ix != 0),
+                        ('incy != 0', iy != 0),
+                        ('A has a row unless the product is empty',
+                         z3.Implies(m != 0, nr >= 1)),
+                        ('the columns of the block exist: offsetA div nrows '
+                         '+ n <= ncols',
+                         z3.Implies(z3.And(m != 0, nn != 0),
+                                    cdiv(oA, nr) + nn <= nc))):
+            ex.oblige(st, 'extern-requires', g, n,
+                      text='sp_%s requires %s' % (kind, text))
+        idv = toint(ex.ev(args[0], st)).t
+        esz = z3.If(idv == 2, 16, 8)
+        if kind == 'gemv':
+            isN = toint(fl).t == ord('N')
+            lenx, leny = z3.If(isN, nn, m), z3.If(isN, m, nn)
+        else:
+            lenx = leny = nn
+
+        def vec(ln, inc):
+            a_ = z3.If(inc >= 0, inc, -inc)
+            return z3.If(ln > 0, 1 + (ln - 1) * a_, 0)
+        ex.bounds_oblig(x, vec(lenx, ix) * esz, st, n,
+                        'sp_%s argument x (r)' % kind)
+        ex.bounds_oblig(y, vec(leny, iy) * esz, st, n,
+                        'sp_%s argument y (rw)' % kind)
+        if y.region is not None:
+            st.stores.append((y.region, y.off, vec(leny, iy) * esz,
+                              list(st.path()), n.get('line'),
+                              'sp_' + kind))
+        st.calls.append(CallRec('sp_' + kind, {
+            'ints': {'m': m, 'n': nn, 'oA': oA, 'incx': ix, 'incy': iy,
+                     'flag': toint(fl).t}, 'scalars': {},
+            'ptrs': {'x': x, 'y': y}, 'esz': esz}, list(st.path()),
+            n.get('line')))
+        return ex.fresh_int('sp_%s_status' % kind, 'int')
+    return h
+
+
+def post_sp_call(ex, finished, extra_obs):
+    """the sparse kernels are handed the buffers of x and y at offsetx /
+    offsety and the strides / offset into A that were asked for"""
+    from engine.cvc.exec import Oblig
+    done = set()
+    n = 0
+    for st, kind, val in finished:
+        parsed = st.ghost.get('parsed', {})
+
+        def pint(nm):
+            v = parsed.get(nm)
+            return v.t if isinstance(v, IntV) else v
+        for rec in st.calls:
+            if id(rec) in done or not rec.name.startswith('sp_'):
+                continue
+            done.add(id(rec))
+            n += 1
+            x, y = parsed.get('x'), parsed.get('y')
+            px, py = rec.args['ptrs']['x'], rec.args['ptrs']['y']
+            esz = rec.args['esz']
+            conj = [z3.BoolVal(px.region is x.buffer_region()),
+                    z3.BoolVal(py.region is y.buffer_region()),
+                    px.off == pint('offsetx') * esz,
+                    py.off == pint('offsety') * esz,
+                    rec.args['ints']['incx'] == pint('incx'),
+                    rec.args['ints']['incy'] == pint('incy'),
+                    rec.args['ints']['oA'] == pint('offsetA')]
+            text = ('the sparse kernel is called on x at offsetx and y at '
+                    'offsety with the strides incx, incy and the offset '
+                    'offsetA that were given')
+            extra_obs.append(Oblig('%s:call-correspondence:%s' % (
+                ex.fname, text), 'call-correspondence', list(rec.pc),
+                z3.simplify(z3.And(conj)), text, rec.line))
+    return n
+
+
 LOCAL_EXTERNS = dict(dense_spec.COMMON)
 LOCAL_EXTERNS.update(blas_spec.LOCAL_EXTERNS)
 for b_ in ('axpy', 'scal', 'gemv', 'gemm', 'syrk', 'symv', 'copy', 'swap'):
     LOCAL_EXTERNS[b_ + '[]'] = table(b_)
+LOCAL_EXTERNS['sp_gemv[]'] = sp_kernel('gemv')
+LOCAL_EXTERNS['sp_symv[]'] = sp_kernel('symv')
 
 def post_scal_extent(ex, finished, extra_obs):
     """degenerate products (a dimension of A is zero) reduce to y := beta*y:
@@ -83,8 +189,19 @@ def post_scal_extent(ex, finished, extra_obs):
     return {'scal_calls': n}
 
 
+def post_gemv(ex, finished, extra_obs):
+    r = post_scal_extent(ex, finished, extra_obs)
+    r['sp_calls'] = post_sp_call(ex, finished, extra_obs)
+    return r
+
+
+def post_symv(ex, finished, extra_obs):
+    return {'sp_calls': post_sp_call(ex, finished, extra_obs)}
+
+
 FUNCS = {}
 for f in ('base_axpy', 'base_gemv', 'base_gemm', 'base_syrk', 'base_symv'):
     FUNCS[f] = {'init': driver.pycfunction_init,
-                'post': post_scal_extent if f == 'base_gemv' else None,
+                'post': {'base_gemv': post_gemv,
+                         'base_symv': post_symv}.get(f),
                 'config': {'allow_unsupported': ['sp_', 'spmatrix', 'SP_']}}
